@@ -130,6 +130,19 @@ pub trait Property: Send + Sync + 'static {
     fn parent_phase(&self, _tier: Tier, _seed: u64) -> ParentPhase {
         ParentPhase::default()
     }
+    /// Engine B: a libFuzzer target that decodes bytes into cases of this property and judges them
+    /// with the same oracle (thorough tier only; artifacts are re-judged in the sandbox).
+    fn fuzz(&self) -> Option<FuzzSpec<Self::Case>> {
+        None
+    }
+}
+
+pub struct FuzzSpec<C> {
+    /// name of the cargo-fuzz target in /verif/fuzz
+    pub target: &'static str,
+    /// wall-clock budget of the thorough campaign (seconds); more exploration, never a verdict by itself
+    pub secs: u64,
+    pub decode: fn(&[u8]) -> Option<C>,
 }
 
 #[derive(Default)]
@@ -414,7 +427,7 @@ impl Drop for Worker {
 // check driver
 
 #[derive(Clone, Debug)]
-enum ResKind {
+pub(crate) enum ResKind {
     Pass,
     Skip(String),
     Fail { sig: String, detail: String },
@@ -452,7 +465,7 @@ struct Shared<C> {
     fixed: Vec<Option<Vec<C>>>,
 }
 
-fn classify<P: Property>(
+pub(crate) fn classify<P: Property>(
     p: &P,
     w: &mut Worker,
     case_json: &Value,
@@ -508,7 +521,7 @@ fn classify<P: Property>(
     }
 }
 
-fn write_json(path: &str, v: &Value) {
+pub(crate) fn write_json(path: &str, v: &Value) {
     if let Some(dir) = std::path::Path::new(path).parent() {
         let _ = std::fs::create_dir_all(dir);
     }
@@ -581,6 +594,26 @@ pub fn run_check<P: Property>(p: Arc<P>, tier: Tier, seed: u64) -> i32 {
         write_json(&path, &json!({"property": id, "family": "parent_phase", "sig": sig, "detail": detail, "case": rj}));
         eprintln!("FAIL [{sig}] {detail}");
         violations.push((path, sig.clone()));
+    }
+
+    // 2b. Engine B (thorough only): coverage-guided campaign, artifacts re-judged in the sandbox
+    let mut fuzz_cov: Option<Value> = None;
+    if tier == Tier::Thorough {
+        if let Some(spec) = p.fuzz() {
+            let fr = crate::fuzzdrv::campaign(&*p, &spec, seed, &open_sigs, &hang_cleared);
+            if let Some(m) = fr.broken {
+                eprintln!("MACHINERY BROKEN (libFuzzer engine, property {id}): {m}");
+                return 2;
+            }
+            for (sig, detail, rj) in &fr.failures {
+                let h = hash_bytes(serde_json::to_string(rj).unwrap().as_bytes());
+                let path = format!("{VERIF_DIR}/replays/{id}/{h:016x}.json");
+                write_json(&path, &json!({"property": id, "family": "libfuzzer", "sig": sig, "detail": detail, "case": rj}));
+                eprintln!("FAIL property={id} family=libfuzzer [{sig}] {}", crate::run::trunc(detail, 2000));
+                violations.push((path, sig.clone()));
+            }
+            fuzz_cov = Some(fr.coverage);
+        }
     }
 
     // 3. generated families
@@ -885,6 +918,9 @@ pub fn run_check<P: Property>(p: Arc<P>, tier: Tier, seed: u64) -> i32 {
     for (k, v) in pp.coverage {
         coverage.insert(k, v);
     }
+    if let Some(fc) = fuzz_cov {
+        coverage.insert("libfuzzer_campaign".into(), fc);
+    }
     let ev = json!({
         "property_id": id,
         "tier": tier.name(),
@@ -971,6 +1007,11 @@ pub trait DynProperty: Send + Sync {
     fn check(&self, tier: Tier, seed: u64) -> i32;
     fn worker(&self) -> i32;
     fn replay(&self, path: &str) -> i32;
+    /// judge one libFuzzer input in this process (None: outside the property's domain / no fuzz target)
+    fn fuzz_one(&self, data: &[u8]) -> Option<Verdict>;
+    fn fuzz_target(&self) -> Option<&'static str>;
+    /// development aid: run only the libFuzzer campaign and print what it covered
+    fn fuzz_only(&self, seed: u64) -> i32;
 }
 
 pub struct Entry<P: Property>(pub Arc<P>);
@@ -987,6 +1028,36 @@ impl<P: Property> DynProperty for Entry<P> {
     }
     fn replay(&self, path: &str) -> i32 {
         run_replay(self.0.clone(), path)
+    }
+    fn fuzz_one(&self, data: &[u8]) -> Option<Verdict> {
+        let spec = self.0.fuzz()?;
+        let case = (spec.decode)(data)?;
+        Some(self.0.judge(&case, false))
+    }
+    fn fuzz_target(&self) -> Option<&'static str> {
+        self.0.fuzz().map(|s| s.target)
+    }
+    fn fuzz_only(&self, seed: u64) -> i32 {
+        let Some(spec) = self.0.fuzz() else {
+            eprintln!("no libFuzzer target for {}", self.0.id());
+            return 2;
+        };
+        let open: HashSet<String> = load_findings().findings.iter().filter(|f| f.property == self.0.id() && f.status == "open").map(|f| f.sig.clone()).collect();
+        let hc = AtomicUsize::new(0);
+        let fr = crate::fuzzdrv::campaign(&*self.0, &spec, seed, &open, &hc);
+        println!("{}", serde_json::to_string_pretty(&fr.coverage).unwrap());
+        if let Some(m) = fr.broken {
+            eprintln!("BROKEN: {m}");
+            return 2;
+        }
+        for (sig, detail, case) in &fr.failures {
+            let h = hash_bytes(serde_json::to_string(case).unwrap().as_bytes());
+            let path = format!("{VERIF_DIR}/replays/{}/{h:016x}.json", self.0.id());
+            write_json(&path, &json!({"property": self.0.id(), "family": "libfuzzer", "sig": sig, "detail": detail, "case": case}));
+            eprintln!("FAIL [{sig}] {}", crate::run::trunc(detail, 3000));
+            println!("VIOLATION property={} replay={path}", self.0.id());
+        }
+        if fr.failures.is_empty() { 0 } else { 1 }
     }
 }
 
